@@ -64,7 +64,7 @@ def main():
         meta = json.load(open(m))
         name = 'seeded_' + os.path.basename(os.path.dirname(m))
         items.append((name, os.path.join(os.path.dirname(m), 'patch.diff'),
-                      [meta['property']], False))
+                      [meta['property']] + list(meta.get('also', [])), False))
     items = [it for it in items if any(it[0].startswith(px) for px in prefixes)]
     results = []
     for name, patch, props, benign in items:
@@ -78,7 +78,9 @@ def main():
                 tail = [ln for ln in p.stdout.splitlines() if 'passed' in ln or 'failed' in ln]
                 tests = (p.returncode == 0, tail[-1] if tail else p.stdout[-200:])
             for prop in props:
-                env = dict(os.environ, VERIF_REPO=repo)
+                env = dict(os.environ, VERIF_REPO=repo,
+                           VERIF_EVIDENCE_DIR=os.path.join(d, 'evidence'),
+                           VERIF_REPLAY_DIR=os.path.join(d, 'replays'))
                 if wall:
                     env['VERIF_WALL_S'] = wall
                 t0 = time.time()
